@@ -138,7 +138,7 @@ type Cfg struct {
 	Senders     [][]PktSpec
 	Closers     []bool // true: Close(), false: ForceClose(err)
 	Input       []InItem
-	PeerRead    int // free mode: 0 prompt, 1 slow, 2 only after the close began, 3 very slow (4 KiB per ms)
+	PeerRead    int // free mode: 0 prompt, 1 slow, 2 only after the close began, 3 very slow (4 KiB per ms), 4 only after Close returned (and the GC cycles), 5 pauses longer than the idle limit (1.6 s), then drains
 	InConsumer  int // 0 nobody drains inbound, 1 drained (free: goroutine; gated: finishing policy / script)
 	Seed        uint64
 	Script      []Dir
